@@ -94,6 +94,20 @@ def run(ctx):
                 pairs["closed"] += 1
             if kv.get("rsim") == "true":
                 pairs["converse_map_exists"] = pairs.get("converse_map_exists", 0) + 1
+            conv = kv.get("conv", "na")
+            merged = kv["statesA"] != kv["statesB"]
+            if conv == "true":
+                pairs["converse_validated_through_grammar"] = pairs.get("converse_validated_through_grammar", 0) + 1
+                if merged:
+                    pairs["converse_validated_and_merged"] = pairs.get("converse_validated_and_merged", 0) + 1
+            if conv == "true" or kv.get("rsim") == "true":
+                pairs["both_directions_proved"] = pairs.get("both_directions_proved", 0) + 1
+            # LR(1) by construction (lalr family), or accepted by the generator without any precedence and with
+            # one action per cell: the unoptimised table must be complete for the grammar once it is covered
+            if sim == "ok" and ((kv["kind"] == "lalr" and conv != "true" and not conv.startswith("na")) or
+                                (kv["kind"] == "cfg" and conv == "false:completeOK(A)" and kv.get("prec") == "false" and kv.get("multi") == "0")):
+                viol.append((0, "judge", "the converse direction (optimised accepts => unoptimised accepts) of pair %s cannot be validated through the grammar although the grammar is LR(1) conflict-free: %s" % (g, conv),
+                             {"case": g, "spec": gsrc.get(g, "?"), "result": kv}, {"clause": "converse-not-validated", "kind": kv["kind"], "why": conv}, True))
             if kv["det"] == "ok":
                 pairs["det_ok"] += 1
             else:
